@@ -54,6 +54,9 @@ def gen(rng, tier):
                          ws=("none", "mixed"), gen_kw=kw)
     glr = lf.bnf_cases(rng, n // 2, tts=("LALR_RN",), algo="GLR", max_len=3, n_sent=12, n_mut=4,
                        ws=("mixed",), gen_kw=kw, glr_scope=True)
+    # the LR parser on a right-nulled table (selectable): shorter reductions, same span rules
+    cases += lf.bnf_cases(rng, max(8, n // 6), tts=("LALR_RN",), algo="LR", max_len=3, n_sent=12, n_mut=4,
+                          ws=("none", "mixed"), gen_kw=kw)
     # user Layout rules (whitespace / line comments / nested block comments): the layout parser runs with the parser's
     # own context (LR) resp. GSS head (GLR), so spans after layout are a separate code path from whitespace skipping
     for layout in ("ws", "comments", "nested"):
